@@ -251,7 +251,10 @@ Begin(fm) ==
   /\ phase' = "check"
   /\ UNCHANGED <<ref, hist, out, outR, agree, oi>>
 
-Item(ok) == [f |-> cur, ok |-> ok, dlg |-> dlg, cls |-> IF ok THEN "" ELSE Class(cur, ref),
+(* the library types a form mentions that the session has not imported yet *)
+NewLib(fm, tb) == {d \in (SeqSet(fm.ds) \cap Known) \cup (IF fm.k = "con" /\ fm.t \in Known THEN {fm.t} ELSE {}) : ~Imported(tb, d)}
+
+Item(ok) == [f |-> cur, ok |-> ok, dlg |-> dlg, cls |-> IF ok THEN "" ELSE Class(cur, ref), lib |-> NewLib(cur, ref),
              o |-> IF ok /\ cur.k = "use" THEN UseOut(cur, tab) ELSE <<>>]
 
 Accepted == WellTyped(cur, tab) /\ ~(dlg /\ cur.ans = "n")
